@@ -105,6 +105,241 @@ func (s *Store) Leaky() {
 		}
 	}
 }
+
+// ---- slice-header aliases of guarded containers ----
+
+// the seeded shape: list headers copied under the lock, walked after the unlock
+func (s *Store) RangeHeaders(f func(*Metric) error) error {
+	s.searchMu.RLock()
+	lists := make([][]*Metric, 0, len(s.Metrics))
+	for _, ml := range s.Metrics {
+		lists = append(lists, ml)
+	}
+	s.searchMu.RUnlock()
+	for _, ml := range lists {
+		for _, m := range ml {
+			if err := f(m); err != nil {
+				return err
+			}
+		}
+	}
+	return nil
+}
+
+// its correct counterpart: the ELEMENTS are copied under the lock
+func (s *Store) RangeElems(f func(*Metric) error) error {
+	s.searchMu.RLock()
+	ms := make([]*Metric, 0, len(s.Metrics))
+	for _, ml := range s.Metrics {
+		ms = append(ms, ml...)
+	}
+	s.searchMu.RUnlock()
+	for _, m := range ms {
+		if err := f(m); err != nil {
+			return err
+		}
+	}
+	return nil
+}
+
+// per-list clones kept in a list of lists: still no alias
+func (s *Store) RangeClones(f func(*Metric) error) error {
+	s.searchMu.RLock()
+	var lists [][]*Metric
+	for _, ml := range s.Metrics {
+		cl := make([]*Metric, len(ml))
+		copy(cl, ml)
+		lists = append(lists, cl)
+	}
+	s.searchMu.RUnlock()
+	for _, ml := range lists {
+		for _, m := range ml {
+			if err := f(m); err != nil {
+				return err
+			}
+		}
+	}
+	return nil
+}
+
+func (s *Store) FindUnlocked(name string) *Metric {
+	s.searchMu.RLock()
+	ml := s.Metrics[name]
+	n := len(ml)
+	s.searchMu.RUnlock()
+	if n == 0 {
+		return nil
+	}
+	return ml[0]
+}
+
+func (s *Store) FindLocked(name string) *Metric {
+	s.searchMu.RLock()
+	defer s.searchMu.RUnlock()
+	var ml = s.Metrics[name]
+	for i := range ml {
+		if ml[i].Name == name {
+			return ml[i]
+		}
+	}
+	return nil
+}
+
+// the clone idiom un-aliases the variable
+func (s *Store) CloneThenWalk(name string) int {
+	s.searchMu.RLock()
+	ml := s.Metrics[name]
+	ml = append([]*Metric(nil), ml...)
+	s.searchMu.RUnlock()
+	n := 0
+	for _, m := range ml {
+		if m.Name != "" {
+			n++
+		}
+	}
+	return n
+}
+
+// ... but not when it happens on one path only
+func (s *Store) CloneSometimes(name string, c bool) int {
+	s.searchMu.RLock()
+	ml := s.Metrics[name]
+	if c {
+		ml = append([]*Metric(nil), ml...)
+	}
+	s.searchMu.RUnlock()
+	n := 0
+	for range ml {
+		n++
+	}
+	return n
+}
+
+// a map of headers
+func (s *Store) MapOfHeaders() int {
+	cp := make(map[string][]*Metric)
+	s.searchMu.RLock()
+	for k, ml := range s.Metrics {
+		cp[k] = ml
+	}
+	s.searchMu.RUnlock()
+	n := 0
+	for _, ml := range cp {
+		for _, m := range ml {
+			if m.Name != "" {
+				n++
+			}
+		}
+	}
+	return n
+}
+
+// the map itself
+func (s *Store) MapAlias() int {
+	s.searchMu.RLock()
+	mm := s.Metrics
+	s.searchMu.RUnlock()
+	return len(mm["x"])
+}
+
+// through a helper that returns the header
+func (s *Store) list(name string) []*Metric { return s.Metrics[name] }
+
+func (s *Store) ViaHelper(name string) int {
+	s.searchMu.RLock()
+	ml := s.list(name)
+	s.searchMu.RUnlock()
+	n := 0
+	for _, m := range ml {
+		if m.Name != "" {
+			n++
+		}
+	}
+	return n
+}
+
+func (s *Store) ViaHelperLocked(name string) int {
+	s.searchMu.RLock()
+	defer s.searchMu.RUnlock()
+	n := 0
+	for _, m := range s.list(name) {
+		if m.Name != "" {
+			n++
+		}
+	}
+	return n
+}
+
+// handing the header to the caller
+func (s *Store) LeakHeader(name string) []*Metric {
+	s.searchMu.RLock()
+	defer s.searchMu.RUnlock()
+	return s.Metrics[name]
+}
+
+// carried around the loop: used at the top of the next iteration
+func (s *Store) LoopCarried(names []string) int {
+	var cur []*Metric
+	n := 0
+	for _, name := range names {
+		for _, m := range cur {
+			if m.Name != "" {
+				n++
+			}
+		}
+		s.searchMu.RLock()
+		cur = s.Metrics[name]
+		s.searchMu.RUnlock()
+	}
+	return n
+}
+
+// a write through the alias, after the write lock is gone
+func (s *Store) WriteThroughAlias(name string) {
+	s.searchMu.Lock()
+	ml := s.Metrics[name]
+	s.searchMu.Unlock()
+	if len(ml) > 0 {
+		ml[0] = nil
+	}
+}
+
+// the same for a metric's label values
+func (m *Metric) LabelsAfterUnlock() int {
+	m.RLock()
+	lvs := m.LabelValues
+	m.RUnlock()
+	n := 0
+	for _, lv := range lvs {
+		if lv != nil {
+			n++
+		}
+	}
+	return n
+}
+
+func (m *Metric) LabelsCopied() int {
+	m.RLock()
+	lvs := make([]*LabelValue, len(m.LabelValues))
+	copy(lvs, m.LabelValues)
+	m.RUnlock()
+	n := 0
+	for _, lv := range lvs {
+		if lv != nil {
+			n++
+		}
+	}
+	return n
+}
+
+func sortMetrics(ms []*Metric) {}
+
+func (s *Store) PassedOn(name string) {
+	s.searchMu.RLock()
+	ml := s.Metrics[name]
+	s.searchMu.RUnlock()
+	sort.Slice(ml, nil)
+}
 `
 
 func SelfTestLock() error {
@@ -119,7 +354,26 @@ func SelfTestLock() error {
 		"Store.Scan":             {"Store.Scan:Metric.LabelValues:R"},
 		// no searchMu; the inner loop is entered again holding a lock it did not hold at its head is fine,
 		// but the read of s.Metrics is unguarded
-		"Store.Leaky": {"Store.Leaky:Store.Metrics:R"},
+		// (the map and, on another line, the elements of its lists)
+		"Store.Leaky": {"Store.Leaky:Store.Metrics:R", "Store.Leaky:Store.Metrics:R"},
+		// aliases of guarded containers
+		"Store.RangeHeaders":       {"Store.RangeHeaders:Store.Metrics:R"},
+		"Store.RangeElems":         {},
+		"Store.RangeClones":        {},
+		"Store.FindUnlocked":       {"Store.FindUnlocked:Store.Metrics:R"},
+		"Store.FindLocked":         {},
+		"Store.CloneThenWalk":      {},
+		"Store.CloneSometimes":     {"Store.CloneSometimes:Store.Metrics:R"},
+		"Store.MapOfHeaders":       {"Store.MapOfHeaders:Store.Metrics:R"},
+		"Store.MapAlias":           {"Store.MapAlias:Store.Metrics:R"},
+		"Store.ViaHelper":          {"Store.ViaHelper:Store.Metrics:R"},
+		"Store.ViaHelperLocked":    {},
+		"Store.LeakHeader":         {"Store.LeakHeader:unknown: returns an alias of a guarded container: return s.Metrics[name]:U"},
+		"Store.LoopCarried":        {"Store.LoopCarried:Store.Metrics:R"},
+		"Store.WriteThroughAlias":  {"Store.WriteThroughAlias:Store.Metrics:W"},
+		"Metric.LabelsAfterUnlock": {"Metric.LabelsAfterUnlock:Metric.LabelValues:R"},
+		"Metric.LabelsCopied":      {},
+		"Store.PassedOn":           {"Store.PassedOn:unknown: alias of a guarded container passed to an untranslated function: ml:U"},
 	}
 	wantStale := map[string][]string{
 		"Metric.Good":        {},
